@@ -69,9 +69,8 @@ def _out_frame(case):
     return cf.CompositeFrame([sky, cf.SpectralFrame(unit=u.Unit(ax[2]["world"]), axes_order=(2,), name="spec")], name="world")
 
 
-def _build(case, with_units):
+def _transform(case, with_units):
     n = len(case["axes"])
-    det = cf.CoordinateFrame(naxes=n, axes_type=("SPATIAL",) * n, axes_order=tuple(range(n)), name="detector", unit=(u.pix,) * n)
     if case["family"] == "tan":
         a0, a1 = case["axes"]
         if with_units:
@@ -84,7 +83,7 @@ def _build(case, with_units):
             post = models.Multiply(1 / float(UNITS[a0["world"]][1])) & models.Multiply(1 / float(UNITS[a1["world"]][1]))
             t = ((models.Shift(-a0["crpix"]) & models.Shift(-a1["crpix"])) | (models.Multiply(k0) & models.Multiply(k1)) |
                  models.Pix2Sky_TAN() | models.RotateNative2Celestial(a0["b"], a1["b"], 180) | post)
-        return gw.WCS([(det, t), (_out_frame(case), None)])
+        return t
     t = None
     for ax in case["axes"]:
         if with_units:
@@ -102,7 +101,49 @@ def _build(case, with_units):
             s = models.Shift(-ax["b"] * k) | models.Multiply(1.0 / (ax["a"] * k))
             inv = s if inv is None else inv & s
         t.inverse = inv
-    return gw.WCS([(det, t), (_out_frame(case), None)])
+    return t
+
+
+def _use(w, n):
+    """look at a WCS before it is edited (whatever it remembers from this must not outlive the edit)"""
+    for f in (lambda: w.pixel_to_world_values(*[1.0] * n), lambda: w.pixel_to_world(*[1.0] * n),
+              lambda: w.world_to_pixel_values(*w.pixel_to_world_values(*[2.0] * n)) if n > 1 else w.world_to_pixel_values(w.pixel_to_world_values(2.0)),
+              lambda: w.invert(*[3.0] * n)):
+        try:
+            f()
+        except Exception:
+            pass
+
+
+def _build(case, with_units):
+    n = len(case["axes"])
+    det = cf.CoordinateFrame(naxes=n, axes_type=("SPATIAL",) * n, axes_order=tuple(range(n)), name="detector", unit=(u.pix,) * n)
+    t, out = _transform(case, with_units), _out_frame(case)
+    staged = case.get("staged")
+    if staged == "insert_frame":
+        # detector -> binned (a unit-free factor of exactly 1), used, then extended to the world frame
+        pre = None
+        for _ in range(n):
+            pre = models.Scale(1.0) if pre is None else pre & models.Scale(1.0)
+        mid = cf.CoordinateFrame(naxes=n, axes_type=("SPATIAL",) * n, axes_order=tuple(range(n)), name="binned", unit=(u.pix,) * n)
+        w = gw.WCS([(det, pre), (mid, None)])
+        _use(w, n)
+        w.insert_frame(mid, t, out)
+        return w
+    if staged == "set_transform":
+        # first built with the OTHER twin's transform, used, then given its own
+        w = gw.WCS([(det, _transform(case, not with_units)), (out, None)])
+        _use(w, n)
+        w.set_transform("detector", out.name, t)
+        return w
+    if staged == "insert_transform":
+        w = gw.WCS([(det, models.Identity(n)), (out, None)])
+        _use(w, n)
+        w.insert_transform(out.name, t, after=False)
+        return w
+    return gw.WCS([(det, t), (out, None)])
+
+
 
 
 def _vals(r):
@@ -213,6 +254,11 @@ def impl(case):
         r["inv_obj"] = _try(lambda: _vals(w.invert(*objs())))
         r["w2p_obj"] = _try(lambda: _vals(w.world_to_pixel(*objs())))
         r["inv_units"] = _try(lambda: _vals(w.invert(*altq, with_units=True)))
+        if case["family"] in ("sky", "tan") and not case.get("mixed"):
+            # the iterative solver called directly: the same world point however it is given
+            r["numinv_alt"] = _try(lambda: _vals(w.numerical_inverse(*altq)))
+            r["numinv_obj"] = _try(lambda: _vals(w.numerical_inverse(*objs())))
+            r["numinv_bare"] = _try(lambda: _vals(w.numerical_inverse(*worldarg)))
         if nm == "q" and case["family"] == "spectral" and not case.get("mixed") and UNITS[ax[0]["world"]][0] == 2:
             # keywords that are not the iterative solver's own go through to the analytic backward transform: a wavelength axis asked
             # for by frequency with a spectral equivalency
@@ -282,14 +328,17 @@ def oracle(case, res):
             out.append(("objects", "%s: twins build different kinds of objects %s vs %s" % (op, q[op]["kinds"], t[op]["kinds"])))
     # 3. every way of giving the world point inverts to the same pixels
     otol = max(ptol, 1e-5) if case.get("obj_sky", case.get("sky")) != case.get("sky") else ptol   # FK4 e-terms do not round-trip exactly
-    for op in ("inv_alt", "inv_frame_q", "inv_bare", "inv_obj", "w2p_obj", "inv_units", "inv_equiv"):
+    for op in ("inv_alt", "inv_frame_q", "inv_bare", "inv_obj", "w2p_obj", "inv_units", "inv_equiv", "numinv_alt", "numinv_obj", "numinv_bare"):
         for nm in ("q", "t"):
             r = res[nm].get(op)
             if r is None:
                 continue
-            if "err" in r:
+            if "err" in r and op.startswith("numinv") and nm == "q" and r["msg"].startswith("UnitsError"):
+                # finding D40: the iterative solver evaluates the forward transform on bare numbers
+                out.insert(0, ("D40", "%s on the unit-carrying WCS: %s" % (op, r["msg"])))
+            elif "err" in r:
                 out.append(("invert", "%s failed on the %s WCS: %s" % (op, nm, r["msg"])))
-            elif not all(_close(a, b, absol=otol if "obj" in op else ptol) for a, b in zip(r["v"], pix)) or len(r["v"]) != n:
+            elif not all(_close(a, b, absol=max(1e-4, otol) if "numinv" in op else otol if "obj" in op else ptol) for a, b in zip(r["v"], pix)) or len(r["v"]) != n:
                 out.append(("invert", "%s on the %s WCS (world in %s%s) gives pixels %s, expected %s" %
                             (op, nm, [a["alt"] for a in case["axes"]], ", objects in " + case.get("obj_sky", "-") if "obj" in op else "", r["v"], pix)))
     # 4. pixel quantities
@@ -464,6 +513,9 @@ def _gen_main(rng, tier):
             case["obj_sky"] = rng.choice(["icrs", "fk5", "galactic", "fk4", "fk5_1975"])
         if fam in ("spectral", "temporal", "generic") and rng.random() < 0.3:
             case["mixed"] = True
+        if rng.random() < 0.3:
+            # the WCS reached through a history (built in stages and used in between) rather than in one go
+            case["staged"] = rng.choice(["insert_frame", "insert_frame", "set_transform", "insert_transform"])
         npt = 3 if case["array"] else 1
         case["pix"] = [[rng.randint(0, 255) / 4.0 + 0.125 for _i in range(npt)] for _a in case["axes"]]
         yield case
